@@ -296,6 +296,9 @@ func c02(c *Ctx) {
 	c.c02Apply()
 	c.c02Restore()
 	c.c02Stream(snap)
+	c.c02BaseState(snap, lss)
+	c.c02SinkErrors()
+	c.c02NoLiveGlobals(arm)
 
 	// N6 horizon dependence
 	{
@@ -772,5 +775,247 @@ func (c *Ctx) c02Stream(snap *load.FuncInfo) {
 			}
 		}
 		r.Check(okSt, "C02.N5", snap.Name(), "snapshot state is the folded temporary server", c.P.Pos(cl.Pos()), "state: tmpServer.Marshal(...)", "the persisted state is not the serialization of the folded temporary server")
+	}
+}
+
+// c02BaseState (N2c): the state the fold starts from is the newest filed state older than the first retained index.
+func (c *Ctx) c02BaseState(snap *load.FuncInfo, lss *types.Var) {
+	r := c.R
+	info := snap.Info()
+	g := c.Graph(snap)
+	name := snap.Name()
+	var firstObj types.Object
+	for _, v := range g.Nodes() {
+		if as, ok := v.Node.(*ast.AssignStmt); ok && len(as.Rhs) == 1 {
+			if call, ok := ast.Unparen(as.Rhs[0]).(*ast.CallExpr); ok {
+				if fn := astx.Callee(info, call); fn != nil && fn.Name() == "FirstIndex" {
+					if id, ok := as.Lhs[0].(*ast.Ident); ok {
+						firstObj = astx.Obj(info, id)
+					}
+				}
+			}
+		}
+	}
+	for _, call := range callsIn(snap, func(fn *types.Func, _ *ast.CallExpr) bool { return isFunc(fn, "ircserver", "(*IRCServer).Unmarshal") }) {
+		if len(call.Args) != 1 {
+			continue
+		}
+		pos := c.P.Pos(call.Pos())
+		arg := call.Args[0]
+		if d := uniqueDef(info, snap.Node(), arg); d != nil {
+			arg = d
+		}
+		ie, ok := ast.Unparen(arg).(*ast.IndexExpr)
+		if !ok {
+			r.Observe("C02.N2", name, "base state source", pos, "the base state is not read by indexing lastSnapshotState; selection shape not analysed")
+			continue
+		}
+		se, ok := ast.Unparen(ie.X).(*ast.SelectorExpr)
+		if !ok || astx.FieldSel(info, se) != lss {
+			continue
+		}
+		kid, ok := ast.Unparen(ie.Index).(*ast.Ident)
+		if !ok {
+			continue // exact-key arithmetic is judged by the look-up rule above
+		}
+		kobj := astx.Obj(info, kid)
+		// assignments to the selected key inside a range over lastSnapshotState
+		nSel, okOlder, okNewest := 0, true, true
+		for _, v := range g.Nodes() {
+			as, ok := v.Node.(*ast.AssignStmt)
+			if !ok {
+				continue
+			}
+			hit := false
+			for _, l := range as.Lhs {
+				if id, ok := l.(*ast.Ident); ok && astx.Obj(info, id) == kobj && as.Tok != token.DEFINE {
+					hit = true
+				}
+			}
+			if !hit {
+				continue
+			}
+			var rng *ast.RangeStmt
+			ast.Inspect(snap.Body(), func(n ast.Node) bool {
+				if rs, ok := n.(*ast.RangeStmt); ok && rs.Body.Pos() <= as.Pos() && as.End() <= rs.Body.End() {
+					if s2, ok := ast.Unparen(rs.X).(*ast.SelectorExpr); ok && astx.FieldSel(info, s2) == lss {
+						rng = rs
+					}
+				}
+				return true
+			})
+			if rng == nil || rng.Key == nil {
+				continue
+			}
+			nSel++
+			keyVar := astx.Obj(info, rng.Key.(*ast.Ident))
+			isKey := func(e ast.Expr) bool { id, ok := ast.Unparen(e).(*ast.Ident); return ok && astx.Obj(info, id) == keyVar }
+			isFirst := func(e ast.Expr) bool {
+				id, ok := ast.Unparen(e).(*ast.Ident)
+				return ok && firstObj != nil && astx.Obj(info, id) == firstObj
+			}
+			isSel := func(e ast.Expr) bool { id, ok := ast.Unparen(e).(*ast.Ident); return ok && astx.Obj(info, id) == kobj }
+			older, newest := false, false
+			for _, cl := range c.clausesAt(snap, g, v.ID) {
+				// unit clause key < first
+				if len(cl) == 1 {
+					if gtFact(cfgx.Fact{Expr: cl[0].E, Val: cl[0].Pos}, isFirst, isKey) == 1 {
+						older = true
+					}
+				}
+				// clause ⊆ {!found, key > selected}
+				okAll := len(cl) > 0
+				hasGt := false
+				for _, l := range cl {
+					if gtFact(cfgx.Fact{Expr: l.E, Val: l.Pos}, isKey, isSel) == 1 {
+						hasGt = true
+						continue
+					}
+					if _, isID := ast.Unparen(l.E).(*ast.Ident); isID && !l.Pos {
+						continue // the not-yet-found flag
+					}
+					okAll = false
+				}
+				if okAll && hasGt {
+					newest = true
+				}
+			}
+			okOlder = okOlder && older
+			okNewest = okNewest && newest
+		}
+		if nSel == 0 {
+			r.Observe("C02.N2", name, "base state selection", pos, "no selection loop over lastSnapshotState found; selection shape not analysed")
+			continue
+		}
+		r.Check(okOlder, "C02.N2", name, "base state is older than the first retained entry", pos, "selected under key < first (first = ircstore.FirstIndex())",
+			"the state the fold starts from is not restricted to states older than the first retained entry: entries still in the log copy are folded on top of a state that already contains them")
+		r.Check(okNewest, "C02.N2", name, "base state is the newest such state", pos, "selected under !found || key > selected",
+			"the fold does not start from the newest earlier state: entries folded between two snapshots are lost")
+	}
+}
+
+// c02SinkErrors (N5b): an error from the snapshot sink is propagated by Persist and its helpers.
+func (c *Ctx) c02SinkErrors() {
+	r := c.R
+	n := 0
+	for _, fi := range c.P.FuncsIn("main") {
+		if fi.Body() == nil {
+			continue
+		}
+		info := fi.Info()
+		g := c.Graph(fi)
+		// named results
+		named := map[types.Object]bool{}
+		if fi.FuncType().Results != nil {
+			for _, fld := range fi.FuncType().Results.List {
+				for _, nm := range fld.Names {
+					named[info.Defs[nm]] = true
+				}
+			}
+		}
+		for _, call := range astx.Calls(fi.Body(), false) {
+			se, ok := ast.Unparen(call.Fun).(*ast.SelectorExpr)
+			isSinkWrite := ok && se.Sel.Name == "Write" && astx.IsNamed(info.TypeOf(se.X), pathRaft, "SnapshotSink")
+			fn := astx.Callee(info, call)
+			isHelper := fn != nil && isFunc(fn, "main", "writeLenPrefixed")
+			if !isSinkWrite && !isHelper {
+				continue
+			}
+			n++
+			pos := c.P.Pos(call.Pos())
+			v := g.VertexOf(call)
+			as, isAs := g.V[v].Node.(*ast.AssignStmt)
+			var errObj types.Object
+			if isAs && len(as.Lhs) == 2 {
+				if id, ok := as.Lhs[1].(*ast.Ident); ok && id.Name != "_" {
+					errObj = astx.Obj(info, id)
+				}
+			}
+			if errObj == nil {
+				r.Fail("C02.N5", fi.Name(), "error of "+astx.Str(call.Fun)+" is kept", pos, "the error of a write to the snapshot sink is discarded: a failed snapshot write is reported as success and raft keeps a truncated snapshot")
+				continue
+			}
+			// on the err != nil edge every path returns that error (no normal continuation, no return of a different/nil error)
+			ok = false
+			bad := ""
+			for _, vv := range g.V {
+				for _, e := range vv.Succ {
+					if e.Cond == nil {
+						continue
+					}
+					for _, f := range cfgx.ExpandCond(e.Cond, e.Val) {
+						x, isNil, isCmp := nilCompare(info, f)
+						if !isCmp || isNil {
+							continue
+						}
+						id, isID := ast.Unparen(x).(*ast.Ident)
+						if !isID || astx.Obj(info, id) != errObj {
+							continue
+						}
+						// this test must be the one following the call
+						if !g.DominatedBy(e.From, func(x *cfgx.Vertex) bool { return x.ID == v }) {
+							continue
+						}
+						ok = true
+						reach := g.Reach(e.To, nil, nil)
+						for _, rv := range g.Returns() {
+							if !reach[rv.ID] {
+								continue
+							}
+							rs := rv.Node.(*ast.ReturnStmt)
+							returnsErr := false
+							if len(rs.Results) == 0 {
+								returnsErr = named[errObj]
+							} else {
+								last := rs.Results[len(rs.Results)-1]
+								returnsErr = astx.Mentions(info, last, errObj) && !isNilIdent(info, last)
+							}
+							// only returns on paths that did not re-assign errObj matter; keep it simple: the first return reached
+							if !returnsErr && !g.Between(e.To, rv.ID, func(x *cfgx.Vertex) bool {
+								for _, l := range astx.Assigned(info, x.Node) {
+									if lid, ok := ast.Unparen(l).(*ast.Ident); ok && astx.Obj(info, lid) == errObj {
+										return true
+									}
+								}
+								return false
+							}) {
+								bad = "a return reachable from the error edge does not return that error (" + astx.Str(rs) + ")"
+							}
+						}
+						if reach[g.Exit] && len(g.Returns()) == 0 {
+							bad = "the error edge falls off the end of the function"
+						}
+					}
+				}
+			}
+			r.Check(ok && bad == "", "C02.N5", fi.Name(), "error of "+astx.Str(call.Fun)+" is propagated", pos, "err != nil edge returns that error",
+				"a failed write to the snapshot sink is not propagated ("+bad+"): Persist reports success, raft closes instead of cancelling the sink and a truncated snapshot becomes the latest one")
+		}
+	}
+	r.Check(n >= 4, "C02.N5", "main", "snapshot sink writes found", "-", itoa(n), "fewer sink writes than expected")
+}
+
+// c02NoLiveGlobals: applyRobustMessage works on the server/output it is given; it is also the fold.
+func (c *Ctx) c02NoLiveGlobals(arm *load.FuncInfo) {
+	r := c.R
+	info := arm.Info()
+	bad := 0
+	ast.Inspect(arm.Body(), func(n ast.Node) bool {
+		id, ok := n.(*ast.Ident)
+		if !ok {
+			return true
+		}
+		if v, ok := info.Uses[id].(*types.Var); ok && v.Parent() == v.Pkg().Scope() {
+			switch v.Name() {
+			case "ircServer", "outputStream", "ircStore":
+				bad++
+				r.Fail("C02.N1", arm.Name(), "uses live global "+v.Name(), c.P.Pos(id.Pos()),
+					"applyRobustMessage touches the live "+v.Name()+" instead of the instance it was given: when it is used as the fold during compaction the effect lands on the live state and is missing from the snapshot state")
+			}
+		}
+		return true
+	})
+	if bad == 0 {
+		r.Ok("C02.N1", arm.Name(), "works only on the server and output it is given", c.P.Pos(arm.Node().Pos()), "no reference to ircServer/outputStream/ircStore")
 	}
 }
